@@ -357,7 +357,9 @@ def sessStep (s : S) (f : List String) : S × List String :=
   | ["exread"] =>
     let late := s.heldEx.foldl (fun acc e => insertLate e acc) []
     done { s with holdEx := false, heldEx := [] } (late.map evLine) false
-  | ["counters"] => (s, [ctrLine s])
+  | ["counters"] =>
+    -- the harness does not probe the counters while a writer stands at the write gate (the sequence tokens may be held)
+    if s.held.isSome then (s, ["counters stalled"]) else (s, [ctrLine s])
   | ["txn", n] => match n.toNat? with
     | some n => ({ s with txN := n }, [])
     | none => (s, ["bad-op txn"])
